@@ -245,3 +245,8 @@ func payload(g *vkit.Rand, n int) []byte {
 	off := g.Intn(1 << 20)
 	return pool[off : off+n : off+n]
 }
+
+// workers: a handshake over the in-memory pipe is a ping-pong between two or
+// four goroutines, i.e. latency-bound rather than CPU-bound; more cases in
+// flight than cores keeps the cores busy (also when the machine is shared).
+const workers = 48
